@@ -401,8 +401,8 @@ def main():
               for r in recs if r["nlines"] >= 3}
   run.put("distinct_nontrivial", len(distinct))
   run.put("rule", "one case = one source text analysed by io.check_or_generate_pyi (infer or check mode); families: "
-          "hand-written, generated (all constructs), spec-planned token mutants, edge texts, pytype test snippets, "
-          "stdlib files; non-trivial = at least 3 lines; distinct by text")
+          "hand-written, generated (all constructs), spec-planned token mutants, edge texts, minimal inputs of earlier "
+          "findings (both modes), pytype test snippets, stdlib files; non-trivial = at least 3 lines; distinct by text")
   for r in recs:
     if r["label"].startswith(("mut", "gen")) and r["nlines"] <= 12:
       run.sample({"label": r["label"], "src": by_label[r["label"]]["src"], "compiles": r["compiles"],
@@ -420,7 +420,11 @@ def main():
       "a text carrying `# pytype: skip-file` may end as Skipped (default stub, no errors) whatever CPython says",
       "a malformed literal CPython compiles ({[]}, [*42]) may end as FoldError: one python-compiler-error inside the file",
       "analysis of an item that exceeds the time cap (quick %d/%d s, thorough 120/300 s) is 'not explored'" % (45, 60),
-      "fixture typeshed: most stdlib imports resolve to [import-error], a normal outcome",
+      "fixture typeshed (typeshed is absent in this image): it holds the modules pytype's own overlays look up "
+      "(re, typing_extensions, collections.abc, abc, types, dataclasses, sys, os); every other stdlib import "
+      "resolves to [import-error], a normal outcome",
+      "upstream test snippets run with the command-line default options (the upstream harness sets strict flags "
+      "and mostly check mode); generated/mutated inputs run in infer mode or, with probability 1/4, check mode",
   ]
   return run.finish()
 
